@@ -2,12 +2,12 @@
 # usage: tools-benign.sh  — applies each behaviour-preserving patch under /verif/benign to a scratch worktree and runs the
 # quick checks of the properties whose harnesses touch the changed packages; every verdict must be PASS (or KNOWN-FINDING).
 declare -A MAP
-MAP[internal/queue]="C01 C02 C03 C04 C05 C07 C12 C13 C14"
-MAP[internal/ingress]="C01 C07 C08 C09 C12 C17"
-MAP[internal/app]="C08 C09 C10 C11 C12 C18"
-MAP[internal/pullapi]="C03 C04 C11"
+MAP[internal/queue]="C03 C04 C05 C12 C14"
+MAP[internal/ingress]="C01 C08 C09"
+MAP[internal/app]="C10 C11 C12 C18"
+MAP[internal/pullapi]="C04 C11"
 MAP[internal/dispatcher]="C06 C16 C17"
-MAP[internal/config]="C06 C11 C19 C08 C18"
+MAP[internal/config]="C06 C11 C19"
 MAP[internal/mcp]="C20"
 for f in ${1:-/verif/benign/*.diff}; do
   props=""
